@@ -117,6 +117,7 @@ class C17Machine(RuleBasedStateMachine):
         self.damaged = False
         self.ok = True
         self.hits = set()
+        self.last = None
         self.interesting = False
         self.REC.cases += 1
 
@@ -130,12 +131,44 @@ class C17Machine(RuleBasedStateMachine):
         self.files[slot] = text
         self.history.append(['write', slot, text])
 
+    @precondition(lambda self: self.ok and self.last is not None)
+    @rule(data=st.data(), what=st.sampled_from(['ne', 'adb', 'codec', 'text', 'order', 'same']))
+    def recompile_variation(self, data, what):
+        """the previous compile again with exactly one thing changed: the cache must tell them apart"""
+        chosen, codec, ne, adb = self.last
+        chosen = list(chosen)
+        if what == 'ne':
+            ne = not ne
+        elif what == 'adb':
+            if not any(self.files[s] == 'T3' for s in chosen):
+                self.write_file(chosen[0], 'T3')
+            if data.draw(st.booleans()):
+                codec = data.draw(st.sampled_from(['ber', 'der']))
+            # two different choice tables for the same selector values, one after the other
+            first = data.draw(st.sampled_from(['ADB', 'ADB2']))
+            self.do_compile(chosen, codec, ne, first)
+            if not self.ok:
+                return
+            adb = 'ADB2' if first == 'ADB' else 'ADB'
+        elif what == 'codec':
+            codec = data.draw(st.sampled_from([c for c in CODECS if c != codec]))
+        elif what == 'text':
+            s0 = chosen[0]
+            swap = {'T1': 'T1B', 'T1B': 'T1', 'T2': 'T1', 'T3': 'T2'}.get(self.files[s0], 'T1')
+            self.write_file(s0, swap)
+        elif what == 'order' and len(chosen) > 1:
+            chosen = chosen[1:] + chosen[:1]
+        self.do_compile(chosen, codec, ne, adb)
+
     @precondition(lambda self: self.ok and self.files)
     @rule(data=st.data(), codec=st.sampled_from(CODECS), ne=st.booleans(), adb=st.sampled_from([None, None, 'ADB', 'ADB2']))
     def compile(self, data, codec, ne, adb):
         slots = sorted(self.files)
         k = data.draw(st.integers(1, len(slots)))
         chosen = list(data.draw(st.permutations(slots)))[:k]
+        self.do_compile(chosen, codec, ne, adb)
+
+    def do_compile(self, chosen, codec, ne, adb):
         files = [self.path(s) for s in chosen]
         table = {'ADB': ADB, 'ADB2': ADB2}.get(adb)
         uses_adb = table is not None and any(self.files[s] == 'T3' for s in chosen)
@@ -143,6 +176,7 @@ class C17Machine(RuleBasedStateMachine):
             table = None
             adb = None
         self.history.append(['compile', chosen, [self.files[s] for s in chosen], codec, ne, adb])
+        self.last = (tuple(chosen), codec, ne, adb)
         want = outcome(asn1tools.compile_files, files, codec, any_defined_by_choices=table, numeric_enums=ne)
         got = cached_compile(self.dir, files, codec, ne, adb, self.cache)
         self.REC.ev()
